@@ -291,3 +291,6 @@ def check(run):
     run.guard(rules_macro, run)
     from .c16 import rules_caches
     run.guard(rules_caches, run, 'C03', '.8')
+    # "then default children are entered until stable": the content and completeness of the stabilisation steps
+    from .c02 import rules_stabilization, rules_pairing
+    run.guard(rules_stabilization, run, ('C03.9a', 'C03.9b', 'C03.9c'))
